@@ -14,7 +14,7 @@
 From Coq Require Import List NArith.
 From Astisub Require Import Kit.Base Kit.Scan Model.Srt Model.Vtt Model.Ttx Proofs.SrtIOProofs Proofs.VttIOProofs Proofs.TtxTotal.
 From Astisub Require Import Model.Ssa Proofs.SsaIgnore.
-From Astisub Require Import Kit.Chk Model.SrtC Model.VttC Proofs.SrtChk Proofs.VttChk.
+From Astisub Require Import Kit.Chk Model.SrtC Model.VttC Proofs.SrtChk Proofs.VttChk Model.Dur Model.DurC Proofs.DurChk.
 From Astisub Require Import Model.Stl Model.StlIO Proofs.StlBlocks Proofs.StlIOProofs.
 From Astisub Require Import Kit.Xml Model.Ttml Model.PlainTtml Proofs.TtmlBase Proofs.TtmlIO.
 Import ListNotations.
@@ -74,6 +74,9 @@ Theorem C08_vtt_checked_reader_agrees : forall ls e, read_vtt_lines_c ls e = rea
 Proof. exact read_vtt_lines_c_ok. Qed.
 Theorem C08_vtt_checked_writer_agrees : forall d so ro, write_vtt_c d so ro = write_vtt d so ro.
 Proof. exact write_vtt_c_ok. Qed.
+(* parseDuration (subtitles.go), used by both readers: parts[len(parts)-1], parts[:len(parts)-1], parts[0..2] *)
+Theorem C08_parse_duration_checked : forall s sep k, parse_duration_c s sep k = Ok (parse_duration s sep k).
+Proof. exact parse_duration_c_ok. Qed.
 (* the guards are what keeps the sites unreachable: the same accesses without their guard do panic *)
 Example C08_unguarded_index_panics : index (Str.split arrow [97]) 1 240 = Panic 240 /\ slice_to (@nil N) 1 364 = Panic 364 /\ deref (@None N) 289 = Panic 289.
 Proof. repeat split. Qed.
@@ -113,3 +116,4 @@ Print Assumptions C08_vtt_checked_reader_total.
 Print Assumptions C08_vtt_checked_writer_total.
 Print Assumptions C08_vtt_checked_reader_agrees.
 Print Assumptions C08_vtt_checked_writer_agrees.
+Print Assumptions C08_parse_duration_checked.
